@@ -1392,6 +1392,14 @@ func (w *_unionAssembler) AssembleValue() datamodel.NodeAssembler {
 			},
 		}
 	}
+	if haveIdx, _ := unionMember(w.val); haveIdx >= 0 {
+		return _errorAssembler{
+			schema.ErrNotUnionStructure{
+				TypeName: w.schemaType.Name(),
+				Detail:   "a union must have exactly one entry",
+			},
+		}
+	}
 
 	goType := w.val.Field(idx).Type().Elem()
 	valPtr := reflect.New(goType)
